@@ -3,7 +3,6 @@ using SP_q3_s = SplineTrajectory::QuinticSplineND<3>;
 using TM_q3_s = env::SimTimeMap;
 using SM_q3_s = env::SimSpatialMap<3>;
 OPT_REGISTER_ONE(C12, P_C12, q3_s, SP_q3_s, TM_q3_s, SM_q3_s, true, 3)
-#ifndef STSIM_TSAN
 OPT_REGISTER_ONE(C07, P_C07, q3_s, SP_q3_s, TM_q3_s, SM_q3_s, true, 1)
 OPT_REGISTER_ONE(C08, P_C08, q3_s, SP_q3_s, TM_q3_s, SM_q3_s, true, 1)
 OPT_REGISTER_ONE(C09, P_C09, q3_s, SP_q3_s, TM_q3_s, SM_q3_s, true, 1)
@@ -11,4 +10,3 @@ OPT_REGISTER_ONE(C10, P_C10, q3_s, SP_q3_s, TM_q3_s, SM_q3_s, true, 1)
 OPT_REGISTER_ONE(C15, P_C15, q3_s, SP_q3_s, TM_q3_s, SM_q3_s, true, 3)
 OPT_REGISTER_ONE(C16, P_C16, q3_s, SP_q3_s, TM_q3_s, SM_q3_s, true, 1)
 OPT_REGISTER_ONE(C19, P_C19, q3_s, SP_q3_s, TM_q3_s, SM_q3_s, true, 1)
-#endif
